@@ -165,6 +165,77 @@ type c30Case struct {
 type c30Gen struct {
 	shapes []c30Shape
 	sets   []c30Sets
+	nMain  int            // shapes[:nMain] take part in the main product
+	bShape map[string]int // boundary shapes: "<field>/<n>" -> index into shapes
+	bSets  map[int]int    // list length -> index of the IP-set variant holding set Z with that many members
+}
+
+var c30BoundaryFields = []string{"remote-nets", "remote-set", "local-nets", "dst-ports", "src-ports"}
+
+// c30AddrList: n distinct /32s; the given hit address is first, hit2 (if any) last, fillers in between.
+func c30AddrList(n int, hit, hit2 string) []string {
+	var out []string
+	for i := 0; i < n; i++ {
+		switch {
+		case i == 0 && hit != "":
+			out = append(out, hit+"/32")
+		case i == n-1 && hit2 != "":
+			out = append(out, hit2+"/32")
+		default:
+			out = append(out, fmt.Sprintf("10.2.%d.%d/32", i/250, i%250+1))
+		}
+	}
+	return out
+}
+
+func c30PortList(n int, first, last int32) []*proto.PortRange {
+	var out []*proto.PortRange
+	for i := 0; i < n; i++ {
+		switch {
+		case i == 0:
+			out = append(out, c30PR(first, first))
+		case i == n-1:
+			out = append(out, c30PR(last, last))
+		default:
+			out = append(out, c30PR(int32(10000+i), int32(10000+i)))
+		}
+	}
+	return out
+}
+
+// addBoundaryShapes adds, for every list-valued match field and every length n, a rule shape whose list has
+// exactly n entries (the packets' addresses/ports sit at the first and last position), plus an IP-set variant
+// holding set Z with n members.
+func (g *c30Gen) addBoundaryShapes(lengths []int) {
+	g.nMain = len(g.shapes)
+	g.bShape, g.bSets = map[string]int{}, map[int]int{}
+	for _, n := range lengths {
+		base := c30SetVariants()[0]
+		m := map[string][]string{}
+		for k, v := range base.Members {
+			m[k] = v
+		}
+		m["Z"] = c30AddrList(n, "10.0.1.1", "10.0.2.1")
+		g.bSets[n] = len(g.sets)
+		g.sets = append(g.sets, c30Sets{fmt.Sprintf("VB%d", n), m})
+		for _, f := range c30BoundaryFields {
+			sh := c30Shape{Name: fmt.Sprintf("%s[%d entries]", f, n)}
+			switch f {
+			case "remote-nets":
+				sh.RemoteNets = c30AddrList(n, "10.0.1.1", "10.0.2.1")
+			case "remote-set":
+				sh.RemoteSets = []string{"Z"}
+			case "local-nets":
+				sh.LocalNets = c30AddrList(n, "", c30EpIP) // the endpoint's address is the LAST entry
+			case "dst-ports":
+				sh.Proto, sh.DstPorts = "tcp", c30PortList(n, 80, 83)
+			case "src-ports":
+				sh.Proto, sh.SrcPorts = "tcp", c30PortList(n, 1000, 3000)
+			}
+			g.bShape[fmt.Sprintf("%s/%d", f, n)] = len(g.shapes)
+			g.shapes = append(g.shapes, sh)
+		}
+	}
 }
 
 func (g *c30Gen) describe(cs c30Case) map[string]any {
@@ -187,8 +258,16 @@ func (g *c30Gen) describe(cs c30Case) map[string]any {
 	if cs.Inbound {
 		dir = "inbound"
 	}
+	sets := map[string]any{}
+	for k, v := range g.sets[cs.Sets].Members {
+		if len(v) > 8 {
+			sets[k] = fmt.Sprintf("%d members: %s ... %s", len(v), strings.Join(v[:3], ","), v[len(v)-1])
+		} else {
+			sets[k] = v
+		}
+	}
 	return map[string]any{"layout": cs.Layout, "tiers": tiers, "profile": rs(cs.Profile), "direction": dir, "chunk_size": cs.Chunk,
-		"ipsets": g.sets[cs.Sets].Members, "endpoint_ip": c30EpIP}
+		"ipsets": sets, "endpoint_ip": c30EpIP}
 }
 
 // ---- packets ----
@@ -678,19 +757,33 @@ func (w *c30W) checkDirect(cs c30Case, rules []*hns.ACLPolicy) bool {
 	return true
 }
 
+func c30BoundaryLengths(c int) []int {
+	seen := map[int]bool{}
+	var out []int
+	for _, n := range []int{0, c - 1, c, c + 1, 2 * c} {
+		if n >= 0 && !seen[n] {
+			seen[n] = true
+			out = append(out, n)
+		}
+	}
+	return out
+}
+
 func TestVerif_C30(t *testing.T) {
 	vk.Run(t, "C30", func(c *vk.Ctx) {
 		logrus.SetLevel(logrus.PanicLevel)
 		logrus.StandardLogger().ExitFunc = func(int) { panic("logrus.Fatal") }
 		g := &c30Gen{shapes: c30Shapes(), sets: c30SetVariants()}
+		nMainSets := len(g.sets)
 
 		// is the chunk hook compiled in?
 		hook := false
 		{
 			ps := policysets.NewPolicySets(c30HNS{}, nil, c30Reader{})
 			policysets.VerifSetChunk(ps, 1)
+			before := policysets.VerifChunkCalls.Load()
 			ps.AddOrReplacePolicySet("policy-x", &proto.Policy{InboundRules: []*proto.Rule{{Action: "allow", SrcNet: []string{"10.0.1.0/24", "10.0.2.0/24"}}}})
-			hook = len(ps.GetPolicySetRules([]string{"policy-x"}, true, true)) == 3
+			hook = policysets.VerifChunkCalls.Load() > before // the rewritten constant is read through the hook
 			policysets.VerifClearChunk(ps)
 		}
 		c.Extra("chunk_hook_active", hook)
@@ -699,7 +792,21 @@ func TestVerif_C30(t *testing.T) {
 			chunks = []int{4000}
 			c.Extra("chunk_hook_note", "rewrite of 'const ipPortsPerRule = 4000' did not apply to this tree: only the production chunk size is explored")
 		}
-		c.Rule("Rules: 24 supported match shapes (protocol by name/number, 1-3 remote CIDRs incl. mixed v4/v6, IP sets alone / intersected with CIDRs / empty intersection, local nets and sets, dst/src port lists and ranges, dst ip-port set (egress), two IP sets in one field) x {allow, deny, pass}. " +
+		{
+			seen := map[int]bool{}
+			var lengths []int
+			for _, ch := range chunks {
+				for _, n := range c30BoundaryLengths(ch) {
+					if !seen[n] {
+						seen[n] = true
+						lengths = append(lengths, n)
+					}
+				}
+			}
+			g.addBoundaryShapes(lengths)
+		}
+		c.Rule("Splitter boundaries: for every chunk size c and every list-valued field (remote CIDRs, remote IP set, local CIDRs, dst ports, src ports) a rule whose list has exactly n entries, n in {0, c-1, c, c+1, 2c} (hits at the first and last position), x allow/deny followed by the opposite catch-all x direction. " +
+			"Rules: 24 supported match shapes (protocol by name/number, 1-3 remote CIDRs incl. mixed v4/v6, IP sets alone / intersected with CIDRs / empty intersection, local nets and sets, dst/src port lists and ranges, dst ip-port set (egress), two IP sets in one field) x {allow, deny, pass}. " +
 			"Layouts (r1, r2 range over the rule pool): A default tier, one policy [r1,r2]; B tier t1 [r1] then default tier [r2]; C t1 with default action Pass [r1] then default tier [r2]; D t1 [r1], profile [r2]; E t1 default action Pass [r1], profile [r2]; F profile [r1,r2] only; G default tier with two policies [r1],[r2]; profile = allow-all where not stated. " +
 			"x direction {inbound,outbound} x chunk size {1,2,4000} x 4 IP-set content variants (single member, CIDR member overlapping the rule CIDRs, empty sets, overlapping sets). Every case is driven through the real ipsets cache, PolicySets, policyManager and endpointManager (flattenTiers, rewritePriorities); " +
 			"the resulting ACL list is evaluated for 102 packets (6 remote addresses x tcp/udp x 4 dst ports x 2 src ports + icmp). Non-trivial = at least one policy tier or two profile rules.")
@@ -743,11 +850,28 @@ func TestVerif_C30(t *testing.T) {
 		r2Shapes := []int{0, 2, 4, 8, 11, 14, 18, 22}
 		if c.Thorough() {
 			r2Shapes = nil
-			for i := range g.shapes {
+			for i := 0; i < g.nMain; i++ {
 				r2Shapes = append(r2Shapes, i)
 			}
 		}
-		for s1 := range g.shapes {
+		// Splitter boundaries: every list-valued field x list lengths {0, c-1, c, c+1, 2c} for every chunk size c.
+		for _, ch := range chunks {
+			for _, n := range c30BoundaryLengths(ch) {
+				jobs <- func(w *c30W) {
+					for _, f := range c30BoundaryFields {
+						for a := 0; a < 2; a++ {
+							for _, inbound := range []bool{true, false} {
+								r := c30RuleSpec{g.bShape[fmt.Sprintf("%s/%d", f, n)], a}
+								catchAll := c30RuleSpec{0, 1 - a}
+								w.check(c30Case{Layout: "S-" + f, Tiers: []c30Tier{{"default", "Deny", [][]c30RuleSpec{{r, catchAll}}}}, Profile: allow,
+									Inbound: inbound, Chunk: ch, Sets: g.bSets[n]})
+							}
+						}
+					}
+				}
+			}
+		}
+		for s1 := 0; s1 < g.nMain; s1++ {
 			for a1 := range c30Actions {
 				jobs <- func(w *c30W) {
 					for _, s2 := range r2Shapes {
@@ -757,7 +881,7 @@ func TestVerif_C30(t *testing.T) {
 									continue
 								}
 								for _, lay := range layouts(c30RuleSpec{s1, a1}, c30RuleSpec{s2, a2}) {
-									for sv := range g.sets {
+									for sv := 0; sv < nMainSets; sv++ {
 										for _, ch := range chunks {
 											if w.c.Quick() && sv >= 2 && ch != 4000 {
 												continue
